@@ -35,8 +35,8 @@ def _sched_unit(a):
 def run(prop: str, tier: str, seed: int) -> int:
     t0 = time.time()
     q = tier == "quick"
-    core_specs = (gen.family_T_random(seed, 8 if q else 150, min_states=3, max_states=5)
-                  + gen.family_R(seed + 1, 8 if q else 150) + gen.family_D(seed + 2, 3 if q else 60))
+    core_specs = (gen.family_T_random(seed, 8 if q else 37, min_states=3, max_states=5)
+                  + gen.family_R(seed + 1, 8 if q else 37) + gen.family_D(seed + 2, 3 if q else 20))
     units: List[tuple] = []
     groups, small = [], []
     for sp in sorted(core_specs, key=_size, reverse=True):
@@ -54,9 +54,9 @@ def run(prop: str, tier: str, seed: int) -> int:
             units.append(("core", {"specs": g, "engine": eng, "props": [prop], "seed": seed, "gvals": ("T", "F"), "mc": True,
                                    "tlc_workers": 2, "walks": (0, 0), "max_states": 120 if q else 10 ** 8,
                                    "with_lifecycle": True}))
-    sspecs = gen.family_X(seed, 7 if q else 70) + gen.family_V(seed + 1, 6 if q else 60)
+    sspecs = gen.family_X(seed, 7 if q else 20) + gen.family_V(seed + 1, 6 if q else 20)
     for sp in sspecs:
-        units.append(("sched", {"specs": [sp], "maxnow": 200 if q else 320, "waits": (30,) if q else (20, 45),
+        units.append(("sched", {"specs": [sp], "maxnow": 200 if q else 80, "waits": (30,) if q else (20, 45),
                                 "depth": 6 if q else 8, "tlc_workers": 2, "prop": prop}))
     import concurrent.futures as cf
 
